@@ -72,15 +72,33 @@ namespace
     Verdict check_message(const RespSpec& spec, const net::Message& m, const std::string& ctx)
     {
         V_CHECK(m.version == "HTTP/1.1", "C05/status-line-version", ctx + ": version " + m.version);
-        V_CHECK(m.status == int(spec.code), "C05/status-code", ctx + ": status " + std::to_string(m.status) + " expected " + std::to_string(int(spec.code)));
+        if (spec.file)
+        {
+            V_CHECK(m.status == 200, "C05/file/status-code", ctx + ": status " + std::to_string(m.status) + " for a served file");
+            // content type: the argument if given, else by extension, else whatever the handler had set
+            std::string want_ct = spec.file_ct_arg ? "text/css" : spec.file_ext == ".txt" ? "text/plain" : spec.file_ext == ".png" ? "image/png"
+                : spec.file_ext == ".jpeg"                                                                                          ? "image/jpeg"
+                : spec.file_ext == ".bin"                                                                                           ? "application/octet-stream"
+                                                                                                                                    : "";
+            auto ct = m.all("Content-Type");
+            if (!want_ct.empty())
+            {
+                V_CHECK(ct.size() == 1, "C05/file/content-type-count", ctx + ": Content-Type appears " + std::to_string(ct.size()) + " times");
+                V_CHECK(ct[0] == want_ct, "C05/file/content-type", ctx + ": Content-Type \"" + printable(ct[0]) + "\" expected \"" + want_ct + "\"");
+            }
+        }
+        else
+            V_CHECK(m.status == int(spec.code), "C05/status-code", ctx + ": status " + std::to_string(m.status) + " expected " + std::to_string(int(spec.code)));
         for (auto& h : spec.headers)
         {
+            if (spec.file && h.name == "Content-Type")
+                continue; // judged above: serveFile may replace its value
             auto v = m.all(h.name);
             V_CHECK(v.size() == 1, "C05/header-count", ctx + ": header " + h.name + " appears " + std::to_string(v.size()) + " times");
             V_CHECK(v[0] == h.text, "C05/header-value", ctx + ": header " + h.name + " = \"" + printable(v[0]) + "\" expected \"" + printable(h.text) + "\"");
         }
         auto sc = m.all("Set-Cookie");
-        V_CHECK(sc.size() == spec.cookies.size(), "C05/cookie-count", ctx + ": " + std::to_string(sc.size()) + " Set-Cookie lines, " + std::to_string(spec.cookies.size()) + " cookies set");
+        V_CHECK(sc.size() == spec.cookies.size(), spec.file ? "C05/file/cookie-count" : "C05/cookie-count", ctx + ": " + std::to_string(sc.size()) + " Set-Cookie lines, " + std::to_string(spec.cookies.size()) + " cookies set");
         for (auto& ck : spec.cookies)
             V_CHECK(std::count(sc.begin(), sc.end(), ck.text) == 1, "C05/cookie-line", ctx + ": cookie \"" + printable(ck.text) + "\" not emitted exactly once");
         // no header at all may repeat except Set-Cookie
@@ -171,6 +189,11 @@ namespace
         if (expect_refused)
         {
             V_CHECK(!fulfilled, "C05/over-limit-not-refused", ctx + ": response larger than the maximum response size but send() was fulfilled");
+        }
+        else if (spec.file)
+        {
+            V_CHECK(fulfilled, "C05/file/promise-rejected", ctx + ": the serveFile() promise was rejected");
+            V_CHECK(size_t(rsize) == wire_size, "C05/file/reported-size", ctx + ": getResponseSize() = " + std::to_string(rsize) + " after serveFile() but " + std::to_string(wire_size) + " bytes were emitted");
         }
         else if (!spec.streamed)
         {
@@ -375,9 +398,9 @@ namespace verif
         Choices c(data, size);
         if (c.pick(4) == 0)
             return request_half(c, rep);
-        RespSpec spec = respgen::make(c, true, 70000);
+        RespSpec spec = respgen::make(c, true, 70000, true);
         unsigned lim  = c.pick(12); // 0-4: limit variants for fixed responses
-        rep.label(spec.streamed ? "streamed" : "fixed");
+        rep.label(spec.streamed ? "streamed" : spec.file ? "served-file" : "fixed");
         rep.label("code=" + std::to_string(int(spec.code) / 100) + "xx");
         if (spec.boundary)
             rep.label("boundary-size");
@@ -390,7 +413,7 @@ namespace verif
             return v;
         }
         bool near_limit = false;
-        if (!spec.streamed && lim < 5 && s >= 516)
+        if (!spec.streamed && !spec.file && lim < 5 && s >= 516)
         {
             static const long delta[] = { -2, -1, 0, 1, 0 };
             size_t L                  = lim == 4 ? 2 * s : size_t(long(s) + delta[lim]);
